@@ -328,11 +328,10 @@ class Worker:
         assert result.return_address.worker_id == self._id
 
         mailbox_id = result.return_address.mailbox_index
-        if mailbox_id not in self._mailboxes:
+        box = self._mailboxes.get(mailbox_id)
+        if box is None:
             # If the mailbox has been dropped due to a cancel, ignore result
             return
-
-        box = self._mailboxes[mailbox_id]
 
         with self._mailbox_mutex:
             box.deposit_result(result)
